@@ -772,7 +772,7 @@ PLANS = {
                 mc=[mc_job("conn_ro", "MC_Conn", {"quick": ["MC_C01_q1.cfg"], "thorough": ["MC_C01_q1.cfg", "MC_C01_t1.cfg", "MC_C01_t2.cfg"]}, ["C01"])],
                 level="model_checking", assumptions=MSG_ASSUME),
     "C02": Plan("msg", "TraceRenetMon", ["C02"], [("random_ru", g_random_ru), ("random_mixed", g_random_mixed)],
-                mc=[mc_job("conn_ru", "MC_Conn", {"quick": ["MC_C02_q1.cfg", "MC_C02_q2.cfg", "MC_C02_t1.cfg"], "thorough": ["MC_C02_q1.cfg", "MC_C02_q2.cfg", "MC_C02_t1.cfg"]}, ["C02"], cap_q=400)],
+                mc=[mc_job("conn_ru", "MC_Conn", {"quick": ["MC_C02_q1.cfg", "MC_C02_q2.cfg", "MC_C02_t1.cfg", "MC_C02_q3.cfg"], "thorough": ["MC_C02_q1.cfg", "MC_C02_q2.cfg", "MC_C02_t1.cfg", "MC_C02_q3.cfg"]}, ["C02"], cap_q=400)],
                 level="model_checking", assumptions=MSG_ASSUME),
     "C03": Plan("msg", "TraceRenetMon", ["C03"], [("random_u", g_random_u), ("random_mixed", g_random_mixed)],
                 mc=[mc_job("conn_u", "MC_Conn", {"quick": ["MC_C03_q1.cfg", "MC_C03_q2.cfg"], "thorough": ["MC_C03_q1.cfg", "MC_C03_q2.cfg", "MC_C03_t1.cfg"]}, ["C03"])],
@@ -787,15 +787,15 @@ PLANS = {
                 mc=[mc_job("conn_acks", "MC_Conn", {"quick": ["MC_C08_q1.cfg", "MC_C08_q2.cfg"], "thorough": ["MC_C08_q1.cfg", "MC_C08_q2.cfg", "MC_C01_t1.cfg"]}, ["C08"])],
                 level="model_checking", assumptions=MSG_ASSUME),
     "C09": Plan("msg", "TraceRenetMon", ["C09"], [("random_mem", g_random_mem), ("random_mixed", g_random_mixed)],
-                mc=[mc_job("conn_mem", "MC_Conn", {"quick": ["MC_C09_q1.cfg", "MC_C09_q2.cfg", "MC_C09_q3.cfg"],
-                                                    "thorough": ["MC_C09_q1.cfg", "MC_C09_q2.cfg", "MC_C09_q3.cfg", "MC_C09_t1.cfg"]}, ["C09"])],
+                mc=[mc_job("conn_mem", "MC_Conn", {"quick": ["MC_C09_q1.cfg", "MC_C09_q2.cfg", "MC_C09_q3.cfg", "MC_C09_q4.cfg", "MC_C09_q5.cfg"],
+                                                    "thorough": ["MC_C09_q1.cfg", "MC_C09_q2.cfg", "MC_C09_q3.cfg", "MC_C09_q4.cfg", "MC_C09_q5.cfg", "MC_C09_t1.cfg"]}, ["C09"])],
                 level="model_checking", assumptions=MSG_ASSUME),
     # isolation between channels includes the acknowledgement path: an ack caused by one channel's packet must not release another
     # channel's message (clauses of C08 on every stream, next to those of C01-C03)
     "C11": Plan("msg", "TraceRenetMon", ["C11", "C01", "C02", "C03", "C08"], [("multi", g_multi), ("random_mixed", g_random_mixed),
                                                                                  ("stack_twin", g_stack_twin, "stack", "TraceTransportMon"),
                                                                                  ("stack_churn", g_stack_churn, "stack", "TraceTransportMon")],
-                mc=[mc_job("server_bcast", "MC_Server", {"quick": ["MC_C11_q1.cfg"], "thorough": ["MC_C11_q1.cfg"]}, ["C11", "C01", "C02", "C03", "C08"],
+                mc=[mc_job("server_bcast", "MC_Server", {"quick": ["MC_C11_q1.cfg", "MC_C11_q2.cfg"], "thorough": ["MC_C11_q1.cfg", "MC_C11_q2.cfg", "MC_C11_t2.cfg"]}, ["C11", "C01", "C02", "C03", "C08"],
                            strict=False, cap_q=600, cap_t=10000)],
                 level="model_checking", assumptions=MSG_ASSUME,
                 rule="two or three clients on one RenetServer with independent fault schedules, unicast and broadcast(_except) on every channel "
